@@ -36,3 +36,10 @@ func VerifBytesNewLightResponseFromBytes(in []byte) (*LightResponse, error) {
 func VerifBytesDecodeWarpSyncMessage(in []byte, p peer.ID, inbound bool) (messages.P2PMessage, error) {
 	return decodeWarpSyncMessage(in, p, inbound)
 }
+
+func VerifBytesDecodeSyncMessage(in []byte, p peer.ID, inbound bool) (messages.P2PMessage, error) {
+	return decodeSyncMessage(in, p, inbound)
+}
+
+// the wire structs of the light protocol (for reflection only)
+func VerifBytesLightWireValues() (req any, resp any) { return *newRequest(), *newResponse() }
